@@ -325,7 +325,10 @@ def run(ctx: core.Ctx):
   ctx.traces_validated = len(cfgs)
   CH = max(1, len(cfgs) // 28 + 1)
   tot = {"pixels": 0, "unstable": 0, "hits": 0}
-  for res in core.pmap(_chunk, [(cfgs[i : i + CH], ctx.seed) for i in range(0, len(cfgs), CH)], nproc=14):
+  done, crashes = core.pmap_chunks(_chunk, [(cfgs[i : i + CH], ctx.seed) for i in range(0, len(cfgs), CH)], lambda ch: [([x], ch[1]) for x in ch[0]])
+  for single, cr in crashes:
+    ctx.violation({"what": "the process dies", "signal": int(cr.returncode), "where": core.crash_site(cr)}, cr.stderr_tail[-600:], {"cfg": single[0][0]["c"]})
+  for res in done:
     for key, msg, scen in res:
       if key == "MACHINERY":
         raise RuntimeError(msg)
